@@ -872,6 +872,16 @@ def run_case(ctx, case):
 
 
 def finish(ctx):
+  if not ctx.quick and ctx.shard == 0:
+    # extra workload: the repository's own test-suite under passive monitors
+    # (invariants at hooks on the real classes; vlib/passive.py)
+    from vlib.passive_run import run_suite
+    if run_suite(ctx, "poly"):
+      ctx.need("passive:poly:constructed", 100000)
+      ctx.need("passive:poly:coefficients_checked", 100000)
+      ctx.need("passive:poly:eq_true_hash_checked", 1000)
+      ctx.need("passive:poly:products_evaluated", 10000)
+      ctx.need("passive:poly:sums_evaluated", 1000)
   for key, minimum in [
       ("ring_E", 100), ("ring_D", 50), ("pair_exhaustive", 6561),
       ("support_exhaustive", 512), ("pow_exhaustive", 150),
